@@ -85,13 +85,14 @@ def burl_tables(ctx, need_lists):
     return out
 
 
-def read_stage(ctx, files):
+def read_stage(ctx, files, op='bundle.read'):
+    """op: 'bundle.read' (bytes.Reader) or 'bundle.read.buffer' (caller-owned *bytes.Buffer, overwritten before the result is printed)"""
     if not files:
         return [], []
     needs = ctx.model([f'bundle.read.needs {f}' for f in files])
     need_lists = [[q for q in (n or '').split(' ') if ':' in q] for n in needs]
     tabs = burl_tables(ctx, need_lists)
-    return ctx.both([f'bundle.read {f} {u} {c}' for f, (u, c) in zip(files, tabs)])
+    return ctx.both([f'{op} {f} {u} {c}' for f, (u, c) in zip(files, tabs)])
 
 
 # ---------------------------------------------------------------- hand-assembled b2 bundles (python CBOR, only to build inputs)
